@@ -103,7 +103,40 @@ def namedOfWire (j : J) : String × NamedT :=
     | _ => .input ((j.arrD "fields").map fieldOfWire)
   (j.strD "name", k)
 
-def regOfWire (j : J) : Reg := { types := (j.arrD "types").map namedOfWire }
+/-! Sample custom scalars (user code) handed to the model as its parser PARAMETERS; the same behaviours are implemented
+    as real `ScalarType`s in harness/corr/C07.py (`custom_scalar`). -/
+def sampleParse (impl : String) (n : String) (v : JV) : ParseOut :=
+  match impl with
+  | "even" =>
+    match v with
+    | .int k => if k % 2 == 0 then .value (.int (k / 2)) else .refused
+    | _ => .refused
+  | "tagged" =>
+    match v with
+    | .obj _ => .raised
+    | .str s _ _ => .value (.dict [("v", .str s)])
+    | _ => .refused
+  | _ => defaultScalarParse n v
+
+def sampleParseLiteral (impl : String) (n : String) (l : Lit) : ParseOut :=
+  match impl with
+  | "even" =>
+    match l with
+    | .int k => if k % 2 == 0 then .value (.int (k / 2)) else .refused
+    | _ => .refused
+  | "tagged" =>
+    match l with
+    | .str s => .value (.dict [("v", .str s)])
+    | _ => .refused
+  | _ => defaultScalarParseLiteral n l
+
+def regOfWire (j : J) : Reg :=
+  let impls : List (String × String) := (j.arrD "types").filterMap fun t =>
+    if t.strD "kind" == "custom" then some (t.strD "name", t.strD "impl" "identity") else none
+  let implOf (n : String) : String := ((impls.find? fun p => p.1 == n).map (·.2)).getD "identity"
+  { types := (j.arrD "types").map namedOfWire,
+    customParse := fun n v => sampleParse (implOf n) n v,
+    customParseLiteral := fun n l => sampleParseLiteral (implOf n) n l }
 
 def pairs {α} (f : J → α) (j : J) (k : String) : List (String × α) :=
   (j.arrD k).map fun kv =>
